@@ -20,6 +20,15 @@ Op lines (decimal integers; names / file names / md5 are integers, the adapter m
   sigmanifest <slot> <rebuild> <csv|sql>              `sourmash sig manifest [--no-rebuild-manifest]`, rows of the output
   fileinfo <slot>                                     `sourmash sig fileinfo --json-out`: counts and sketch groups
   load partial <i,j,..>                               a standalone manifest listing only those manifest rows (mod len)
+  derive <j> <i> down <scaled> <maxhash> <md5> | flat | rename <name> <filename>   signature j from signature i
+  noout <list>                    SaveSignaturesToLocation(None): counts, writes nothing
+  stdio <list>                    saved to `-` (stdout), read back from the JSON text and through the stdin loader
+  sbtjson <list>                  an SBT saved as .sbt.json + .sbt.<name>/ (FSStorage)
+  lcasql <ksize> <mol> <scaled> <maxhash> <list>      an LCA database saved in SQLite format
+  load nomanifest                 (zip) ZipFileLinearIndex.load(use_manifest=False)
+  nested <l1> <l2> <l3> <junk> <force>   a directory tree a.sig / sub/b.sig.gz / sub/deep/c.zip / sub/readme.txt [/ junk.sig]
+  sqlapi <list> <extra>            a .sqldb written by the saver, then SqliteIndex.create(append=True).insert(extra)
+  lateadd <zip|sqldb|sig|dir> <list> <extra>   one session, close(), then add(extra) on the closed saver
   kind <file kind>                which registered loaders accept a real file of that kind, and who wins
   conv <x>                        convert_hash_to(x), convert_hash_from(convert_hash_to(x))
 
@@ -227,7 +236,83 @@ def gen_partial_case(rng):
     return lines
 
 
+def gen_periph_case(rng):
+    """peripheral routes: signatures derived by downsampling / flattening / renaming before they are saved, the
+    no-output and stdout savers, SBT on the file system, LCA in SQLite format, manifest-less zip reading"""
+    n = rng.choice([3, 4, 5])
+    sigs, base_scaled = gen_sigs(rng, "zip", n)
+    lines = [sig_line(i, sg) for i, sg in enumerate(sigs)]
+    for _ in range(rng.choice([1, 2, 3])):
+        i = rng.randrange(len(sigs))
+        src = sigs[i]
+        j = len(sigs)
+        how = rng.choice(["down", "down", "flat", "rename"])
+        new = dict(src)
+        if how == "down":
+            if src["num"] or not src["scaled"]:
+                new_scaled = rng.choice([2, 10])
+                lines.append(f"derive {j} {i} down {new_scaled} {mh_for_scaled(new_scaled)} 0")
+                continue                     # refused: a num sketch cannot be downsampled by scaled
+            new_scaled = src["scaled"] * rng.choice([1, 2, 4, 1000])
+            M = mh_for_scaled(new_scaled)
+            new["scaled"] = new_scaled
+            new["hashes"] = [(h, a) for h, a in src["hashes"] if h <= M]
+            new["md5"] = md5_of(src["ksize"], src["mol"], [h for h, _ in new["hashes"]])
+            lines.append(f"derive {j} {i} down {new_scaled} {M} {new['md5']}")
+        elif how == "flat":
+            new["track"] = False
+            new["hashes"] = [(h, 1) for h, _ in src["hashes"]]
+            lines.append(f"derive {j} {i} flat")
+        else:
+            new["name"], new["filename"] = rng.randint(1, 9), rng.choice([7, 8])
+            lines.append(f"derive {j} {i} rename {new['name']} {new['filename']}")
+        sigs.append(new)
+    n = len(sigs)
+    some = lambda k: ",".join(str(x) for x in rng.sample(range(n), min(n, k)))
+    lines.append(f"noout {some(rng.randint(1, 4))}")
+    lines.append(f"stdio {some(rng.randint(1, 4))}")
+    if rng.random() < 0.4:
+        lines.append(f"nested {some(rng.randint(1, 3))} {some(rng.randint(1, 3))} {some(rng.randint(1, 2))} "
+                     f"{int(rng.random() < 0.3)} {int(rng.random() < 0.4)}")
+    if rng.random() < 0.4:
+        lines.append(f"lateadd {rng.choice(['zip', 'sqldb', 'sig', 'dir'])} {some(rng.randint(1, 3))} {rng.randrange(n)}")
+        lines += ["len", "load generic"]
+    r = rng.random()
+    if r < 0.35:
+        lines.append("zip " + sess_str(gen_sessions(rng, n, rng.choice([1, 2]))))
+        lines += ["members", "manifest", "len", "load generic", "load nomanifest"]
+    elif r < 0.55:
+        keyof = lambda sg: (sg["name"], sg["filename"], sg["md5"], sg["ksize"], sg["mol"], sg["num"], sg["scaled"],
+                            sg["seed"], sg["track"], tuple(sg["hashes"]))
+        distinct, seen = [], set()
+        for i in rng.sample(range(n), n):
+            if keyof(sigs[i]) not in seen:        # the file-system storage treats repeated leaves order-dependently
+                seen.add(keyof(sigs[i]))
+                distinct.append(i)
+        lines.append("sbtjson " + ",".join(str(x) for x in distinct[:rng.randint(1, 5)]))
+        lines += ["members", "manifest", "locs", "len", "load generic"]
+    elif r < 0.75:
+        named = [i for i in range(n) if sigs[i]["name"] != 0] or [0]
+        db_scaled = rng.choice([base_scaled, base_scaled * 2, base_scaled * 4])
+        pick = ",".join(str(x) for x in rng.sample(named, min(len(named), rng.randint(1, 5))))
+        if any(sigs[int(x)]["name"] == 0 for x in pick.split(",")):
+            return gen_periph_case(rng)
+        lines.append(f"lcasql 21 0 {db_scaled} {mh_for_scaled(db_scaled)} {pick}")
+        lines += ["manifest", "len", "load generic"]
+    elif r < 0.87:
+        lines.append(f"sqlapi {some(rng.randint(1, 4))} {rng.randrange(n)}")
+        lines += ["manifest", "len", "load generic"]
+    else:
+        fmt = rng.choice(["sqldb", "dir", "sigfile"])
+        sess = sess_str(gen_sessions(rng, n, 1))
+        lines.append(f"sigfile {rng.randrange(2)} {sess}" if fmt == "sigfile" else f"{fmt} {sess}")
+        lines += ["manifest", "len", "load generic", "load standalone"]
+    return lines
+
+
 def gen_case(rng, flavour):
+    if flavour == "periph":
+        return gen_periph_case(rng)
     if flavour in ("cli_cat", "cli_collect", "cli_misc"):
         return gen_cli_case(rng, flavour)
     if flavour == "partial":
@@ -421,6 +506,8 @@ class Coll:
         self.unique_inputs = None      # `sig cat --unique`: the inputs (the choice among equal md5 is order dependent)
         self.sqlmf = False             # a SQLite-format standalone manifest
         self.mode = None               # sig collect: abs | rel | cwd | cwdsub
+        self.sql = False               # an LCA database saved in SQLite format
+        self.late = None               # (accepted silently?, signature) added after close()
 
     def adds(self):
         """[(session index, position, sig index)] in order, minus (for a single JSON file) overwritten sessions"""
@@ -469,6 +556,81 @@ def oracle(case, impl):
         w = op.split()
         if not w:
             continue
+        if out.startswith("VIEW:") or out.startswith("HIST:"):
+            what = out.split()[0]
+            bad.append((k, "C10:" + ("view:" if out.startswith("VIEW:") else "history:") + what[5:].split(":")[0],
+                        f"two routes to the same information disagree, or an earlier result changed, at `{op[:60]}`: {out[:160]}"))
+            continue
+        if w[0] == "derive":
+            j, i = int(w[1]), int(w[2])
+            if i not in sigs or out == "bad-op":
+                continue
+            src = sigs[i]
+            if w[3] == "down":
+                if not out.startswith("ok "):
+                    if not (src[NUM] != 0 or src[SCALED] == 0 or int(w[4]) < src[SCALED]):
+                        bad.append((k, "C10:derive-refused", f"downsampling refused without reason: {out}"))
+                    continue
+                M = int(w[5])
+                new = src[:MD5] + (int(w[6]),) + src[KSIZE:SCALED] + (int(w[4]),) + src[SEED:HASHES] + \
+                    (tuple(p for p in src[HASHES] if p[0] <= M),)
+            elif w[3] == "flat":
+                new = src[:TRACK] + (0, tuple((h, 1) for h, _ in src[HASHES]))
+            else:
+                new = (int(w[4]), int(w[5])) + src[MD5:]
+            if out != f"ok md5={new[MD5]} n={len(new[HASHES])}":
+                bad.append((k, "C10:derived-signature", f"`{op[:60]}` gave {out}, expected md5={new[MD5]} n={len(new[HASHES])}"))
+                continue
+            sigs[j] = new
+            continue
+        if w[0] == "nested":
+            if out == "bad-op":
+                continue
+            l1, l2 = parse_sessions(w[1])[0], parse_sessions(w[2])[0]
+            junk, force = w[4] == "1", w[5] == "1"
+            it = items_of(out)
+            if it is None:
+                if not (junk and not force and out == "err ValueError"):
+                    bad.append((k, "C10:load-failed:dir:nested", f"loading a directory tree raised: {out}"))
+                continue
+            want = Counter(sigs[i] for i in l1 + l2 if i in sigs)
+            if Counter(parse_sig_item(x) for x in it) != want or (junk and not force):
+                bad.append((k, "C10:load-mismatch:dir:nested",
+                            "a directory tree must yield exactly the signatures of the .sig / .sig.gz files below it"))
+            continue
+        if w[0] == "lateadd":
+            coll = None
+            if not out.startswith("ok raised="):
+                continue                            # a refused add inside the session (sqldb): loud
+            fmt2 = {"sig": "sigfile"}.get(w[1], w[1])
+            ids, extra = parse_sessions(w[2])[0], int(w[3])
+            if any(i not in sigs for i in ids + [extra]):
+                continue
+            coll = Coll(fmt2)
+            coll.ok = True
+            coll.late = (out == "ok raised=0", sigs[extra])
+            keys = list(ids) + ([extra] if out == "ok raised=0" else [])
+            coll.sessions = [keys]
+            stored = expected = [sigs[i] for i in keys]
+            continue
+        if w[0] == "noout":
+            if out == "bad-op":
+                continue
+            ids = parse_sessions(w[1])[0]
+            if out != f"ok n={len(ids)}":
+                bad.append((k, "C10:no-output-saver", f"SaveSignaturesToLocation(None) after {len(ids)} adds: {out}"))
+            continue
+        if w[0] == "stdio":
+            if out == "bad-op":
+                continue
+            ids = parse_sessions(w[1])[0]
+            if any(i not in sigs for i in ids):
+                continue
+            it = items_of(out)
+            got = [parse_sig_item(x) for x in it] if it is not None else None
+            if got != [sigs[i] for i in ids if i in sigs]:
+                bad.append((k, "C10:stdio-roundtrip", f"signatures written to `-` and read back differ: {out[:160]}"))
+            continue
         if w[0] == "sig":
             i, s = parse_sig_line(op)
             sigs[i] = s
@@ -482,6 +644,8 @@ def oracle(case, impl):
             sfmt = {"sig": "sigfile", "siggz": "sigfile"}.get(w[2], w[2])
             sc = Coll(sfmt)
             sc.sessions = parse_sessions(w[3])
+            if any(i not in sigs for sess in sc.sessions for i in sess):
+                continue
             ref = parse_refused(out)
             if ref is None:
                 bad.append((k, f"C10:save-failed:{sfmt}", f"saving raised: `{op}` -> {out}"))
@@ -597,17 +761,26 @@ def oracle(case, impl):
                 bad.append((k, f"C10:fileinfo-counts:{sfmt}",
                             f"sig fileinfo reports {sorted(it)[:4]} for a collection holding {sorted(want)[:4]}"))
             continue
-        if w[0] in ("zip", "dir", "sqldb", "sigfile", "sbt", "lca"):
-            coll = Coll(w[0])
+        if w[0] == "sqlapi":
+            w = ["sqldb", w[1] + "|" + w[2]]
+        if w[0] in ("zip", "dir", "sqldb", "sigfile", "sbt", "lca", "sbtjson", "lcasql"):
+            coll = Coll({"sbtjson": "sbt", "lcasql": "lca"}.get(w[0], w[0]))
+            coll.sql = w[0] == "lcasql"
             if w[0] == "sigfile":
                 coll.sessions = parse_sessions(w[2])
-            elif w[0] == "lca":
+            elif w[0] in ("lca", "lcasql"):
                 coll.db_k, coll.db_mol, coll.db_scaled, coll.db_max = int(w[1]), int(w[2]), int(w[3]), int(w[4])
                 coll.sessions = parse_sessions(w[5])
             else:
                 coll.sessions = parse_sessions(w[1])
             ref = parse_refused(out)
-            if out == "bad-op":
+            if out == "bad-op" or any(i not in sigs for sess in coll.sessions for i in sess):
+                coll = None
+                continue
+            if ref is None and coll.sql and out == "err ValueError" and \
+                    all(must_refuse(sigs[i], coll, []) for i in coll.sessions[0] if i in sigs):
+                bad.append((k, "C10:empty-collection-unloadable:lcasql",
+                            "an LCA database holding no signature cannot be saved in SQLite format (ValueError, loud)"))
                 coll = None
                 continue
             if ref is None:
@@ -647,6 +820,11 @@ def oracle(case, impl):
             if it is None:
                 if not (fmt in ("sigfile", "dir", "split") and not expected and out == "err ValueError"):
                     bad.append((k, f"C10:manifest-unreadable:{fmt}", f"manifest could not be read: {out}"))
+                continue
+            if fmt == "lca" and coll.sql:
+                want = Counter(f"{sg[NAME]}|{len(sg[HASHES])}|{sg[SCALED]}|{sg[KSIZE]}|{sg[MOL]}" for sg in expected)
+                if want != Counter(it):
+                    bad.append((k, "C10:manifest-columns:lcasql", f"rows {sorted(it)[:3]} for signatures {sorted(want)[:3]}"))
                 continue
             rows = []
             for r in it:
@@ -721,6 +899,24 @@ def oracle(case, impl):
             continue
         if w[0] == "len":
             continue            # judged together with the load below
+        if w[0] == "load" and w[1] == "nomanifest":
+            it = items_of(out)
+            if out == "ok -" or expected is None:
+                continue
+            if it is None:
+                bad.append((k, f"C10:load-failed:{fmt}:nomanifest", f"reading the zip without its manifest raised: {out}"))
+                continue
+            loaded = [parse_sig_item(x) for x in it]
+            miss = [sg for sg in set(expected) if sg not in loaded]
+            extra = [sg for sg in loaded if sg not in expected]
+            kept = {sg[MD5] for sg in loaded}
+            if extra or any(sg[MD5] not in kept for sg in miss):
+                bad.append((k, "C10:load-mismatch:zip:nomanifest", f"missing {[key3(x) for x in miss][:2]} unexpected {[key3(x) for x in extra][:2]}"))
+            elif miss:
+                bad.append((k, "C10:zip-rebuilt-manifest-skips-suffixed-members",
+                            f"read without its manifest the zip lacks {[key3(x) for x in miss][:2]}: members named <md5>.sig.gz_<n> "
+                            "do not end in .sig/.sig.gz and are never opened"))
+            continue
         if w[0] == "load" and w[1] == "partial":
             it = items_of(out)
             if out == "ok -" or expected is None:
@@ -805,7 +1001,8 @@ def oracle(case, impl):
                         bad.append(classify_loss(kk, coll, sigs, expected, loaded,
                                                  f"len() = {lo[3:]} but {len(loaded)} signatures are returned"))
                     break
-                if case[kk].split()[0] in ("zip", "dir", "sqldb", "sigfile", "sbt", "lca", "cat", "split", "collect", "mk"):
+                if case[kk].split()[0] in ("zip", "dir", "sqldb", "sigfile", "sbt", "lca", "cat", "split", "collect", "mk",
+                                           "sbtjson", "lcasql", "sqlapi", "lateadd"):
                     break
             # manifest rows <-> returned signatures
             if coll.rows is not None and w[1] == "generic":
@@ -843,6 +1040,11 @@ def judge_rows(k, fmt, rows, acc, rebuilt, what):
 def classify_loss(k, coll, sigs, expected, loaded, msg):
     """give a loss its specific signature"""
     fmt = coll.fmt
+    if coll.late is not None and coll.late[0] and loaded is not None:
+        want, got = Counter(expected), Counter(loaded)
+        if not (got - want) and list((want - got).elements()) == [coll.late[1]]:
+            return (k, f"C10:add-after-close-silently-dropped:{fmt}",
+                    msg + " (add() on a closed saver was accepted without an error and the signature was never written)")
     if coll.sqlmf and msg.startswith("len()"):
         return (k, "C10:sql-manifest-drops-same-md5-rows",
                 msg + " (the SQLite-format manifest lacks rows: one per (location, md5))")
@@ -919,7 +1121,7 @@ def classify(case, impl, model, k):
     fmt = "?"
     for l in case[:k + 1]:
         w = l.split()
-        if w and w[0] in ("zip", "dir", "sqldb", "sigfile", "sbt", "lca", "cat", "split", "collect"):
+        if w and w[0] in ("zip", "dir", "sqldb", "sigfile", "sbt", "lca", "cat", "split", "collect", "sbtjson", "lcasql"):
             fmt = w[0]
     op = case[k].split()[0] if k < len(case) and case[k].split() else "?"
     if op in ("kind", "conv", "sig"):
